@@ -64,13 +64,16 @@ def st_case(draw, keys):
     # sometimes the whole abscissa lies on the non-contact side (a baseline stretch only)
     all_out = draw(st.integers(0, 7)) == 0
     u = sorted(set(draw(st.lists(st.floats(0.0, 1.0), min_size=n, max_size=n))) | {0.0, 1.0})
+    # sometimes a long, evenly sampled record (high-rate acquisition) around power-of-two lengths
+    n_long = draw(st.sampled_from([0] * 12 + [4097, 16384, 16385, 32769, 50000]))
     efac = draw(st.floats(0.01, 100.0))
     units = dict(zip(md.parameter_keys, md.parameter_units))
     for name, v in p.items():
         if units.get(name) == "Pa" and np.isfinite(defaults[name].max):
             # scaled moduli must stay inside their bounds (lmfit clips values to the bounds)
             efac = min(efac, 0.99 * defaults[name].max / v)
-    return {"model": key, "params": p, "cp": cp, "scale": scale, "top": top, "u": u, "all_out": all_out,
+    return {"model": key, "params": p, "cp": cp, "scale": scale, "top": top, "u": u if not n_long else [0.0, 1.0],
+            "n_long": n_long, "all_out": all_out,
             "ascending": draw(st.booleans()),
             "shift": draw(st.sampled_from([0.0, 1.0, -1.0])) * draw(st.floats(0, 10.0)),
             "dbase": draw(st.sampled_from([1.0, -1.0])) * draw(st.floats(1e-12, 1e-6)),
@@ -102,7 +105,7 @@ def check_case(case, ctx):
     md = nmodel.models_available[case["model"]]
     desc = {"model": case["model"]}
     cp, scale = case["cp"], case["scale"]
-    u = np.array(case["u"])
+    u = np.array(case["u"]) if not case.get("n_long") else np.linspace(0.0, 1.0, int(case["n_long"]))
     # descending abscissa = approach order: from cp + top*scale down to cp - scale
     x_desc = cp + case["top"] * scale - u * (case["top"] + 1.0) * scale
     if case.get("all_out"):
@@ -115,7 +118,8 @@ def check_case(case, ctx):
     incontact = depth > 0
     ctx.note_case(case, nontrivial=bool((incontact.sum() >= 2 and (~incontact).sum() >= 1) or case.get("all_out")),
                   classes=[case["model"], "ascending" if case["ascending"] else "descending"]
-                  + (["all_out_of_contact"] if case.get("all_out") else []))
+                  + (["all_out_of_contact"] if case.get("all_out") else [])
+                  + (["long_record"] if case.get("n_long") else []))
     x = x_desc[::-1].copy() if case["ascending"] else x_desc.copy()
     params = make_params(md, case)
     before_p, before_x = pstate(params), x.copy()
